@@ -16,15 +16,35 @@ package derive
 
 import (
 	"fmt"
+	"go/build"
 	"go/parser"
 
 	"golang.org/x/tools/go/loader"
 )
 
-func load(paths ...string) (*loader.Program, error) {
+// load loads the packages at the paths.
+// The packages at the paths in stale are loaded without their derived file, since that file is the output of a previous run.
+// What is generated should only depend on the current sources and not on what was generated for their previous version,
+// for example the type of deriveKeys(m) for a map m of which the key type has since been changed.
+func load(paths []string, stale map[string]bool) (*loader.Program, error) {
 	conf := loader.Config{
 		ParserMode:  parser.ParseComments,
 		AllowErrors: true,
+		FindPackage: func(ctxt *build.Context, importPath, fromDir string, mode build.ImportMode) (*build.Package, error) {
+			bp, err := ctxt.Import(importPath, fromDir, mode)
+			if bp == nil || !stale[importPath] {
+				return bp, err
+			}
+			bp.GoFiles = without(bp.GoFiles, derivedFilename)
+			if invalid := without(bp.InvalidGoFiles, derivedFilename); len(invalid) < len(bp.InvalidGoFiles) {
+				// the derived file is the only file that go/build could not read, for example the remnant of an interrupted write.
+				bp.InvalidGoFiles = invalid
+				if len(invalid) == 0 {
+					err = nil
+				}
+			}
+			return bp, err
+		},
 	}
 	conf.TypeChecker.Error = func(err error) {}
 	rest, err := conf.FromArgs(paths, true)
@@ -42,4 +62,15 @@ func load(paths ...string) (*loader.Program, error) {
 		return nil, fmt.Errorf("program == nil")
 	}
 	return p, nil
+}
+
+// without returns the names without the name.
+func without(names []string, name string) []string {
+	res := make([]string, 0, len(names))
+	for _, n := range names {
+		if n != name {
+			res = append(res, n)
+		}
+	}
+	return res
 }
